@@ -1220,14 +1220,21 @@ impl ArrayData {
                     ))
                 })?;
 
-                let expected_values_len = self.len
-                    .checked_mul(list_size)
-                    .expect("integer overflow computing expected number of expected values in FixedListSize");
+                // the child must cover the slots before `offset` as well
+                let len_plus_offset =
+                    checked_len_plus_offset(&self.data_type, self.len, self.offset)?;
+                let expected_values_len =
+                    len_plus_offset.checked_mul(list_size).ok_or_else(|| {
+                        ArrowError::InvalidArgumentError(format!(
+                            "Length ({}) plus offset ({}) multiplied by the value size ({}) overflows usize for {}",
+                            self.len, self.offset, list_size, self.data_type
+                        ))
+                    })?;
 
                 if values_data.len < expected_values_len {
                     return Err(ArrowError::InvalidArgumentError(format!(
-                        "Values length {} is less than the length ({}) multiplied by the value size ({}) for {}",
-                        values_data.len, self.len, list_size, self.data_type
+                        "Values length {} is less than the length ({}) multiplied by the value size ({}) for {} with offset {}",
+                        values_data.len, self.len, list_size, self.data_type, self.offset
                     )));
                 }
 
